@@ -1,1 +1,461 @@
 // verification harness (compiled into ntp-proto/src/packet/mod.rs under cfg(all(test, pendulum_project_ntpd_rs_verif)))
+// Harness for spec/Packet.tla.  TLC enumerates datagram layouts (runs of byte classes) together with the transcribed
+// decoder's / encoder's prediction; this module concretises every layout into real bytes and runs the REAL codec:
+//   mode "cases":  decode in the requested key contexts (none / client cipher / server key set), compare the result
+//                  class with the prediction; without keys, run the round-trip chain decode -> encode -> decode ->
+//                  encode and compare the re-encoded bytes with the model's; optional seeded byte mutations
+//                  (totality only).  Panics are data.
+//   mode "sealed": builds real NTS-protected datagrams (harness/common/wire.rs + the real cipher and real cookies),
+//                  measures the byte range of every region, then flips EVERY bit and sets every byte of every length
+//                  word to all other values, decoding each variant with the right key.
+#![allow(clippy::all, dead_code)]
+
+use super::*;
+use crate::keyset::{DecodedServerCookie, KeySet, KeySetProvider};
+use crate::nts::AeadAlgorithm;
+use serde_json::{Value, json};
+use std::sync::Arc;
+
+#[path = "/verif/harness/common/util.rs"]
+mod util;
+#[path = "/verif/harness/common/wire.rs"]
+mod wire;
+use util::Rng;
+use wire::{Ef, Hdr};
+
+fn type_of(kind: &str) -> u16 {
+    match kind {
+        "uid" => 0x0104,
+        "cookie" => 0x0204,
+        "ph" => 0x0304,
+        "enc" => 0x0404,
+        "unk" => 0x1234,
+        "draft" => 0xF5FF,
+        "pad" => 0xF501,
+        "rreq" => 0xF503,
+        "rresp" => 0xF504,
+        k => panic!("unknown kind {k}"),
+    }
+}
+
+fn header_bytes(ver: u8, hc: &Value) -> Vec<u8> {
+    let mode = hc["mode"].as_u64().unwrap() as u8;
+    let leap = hc["leap"].as_u64().unwrap() as u8;
+    let mut h = Hdr::new(ver, mode);
+    h.leap = leap;
+    h.poll = 6;
+    h.word4 = [1, 2, 3, 4, 5, 6, 7, 8];
+    h.origin = [9, 10, 11, 12, 13, 14, 15, 16];
+    h.recv = [17, 18, 19, 20, 21, 22, 23, 24];
+    h.xmit = [25, 26, 27, 28, 29, 30, 31, 32];
+    if ver == 5 {
+        let sync = hc["sync"].as_bool().unwrap() as u8;
+        let scale = if hc["scaleOk"].as_bool().unwrap() { 1 } else { 9 };
+        let flags = if hc["flagsOk"].as_bool().unwrap() { sync } else { 0x08 | sync };
+        h.word3 = [scale, 0, 0, flags];
+    } else {
+        h.word3 = [10, 1, 2, 3];
+    }
+    h.bytes()
+}
+
+fn runs_bytes(runs: &Value, out: &mut Vec<u8>) {
+    for r in runs.as_array().unwrap() {
+        let n = r["n"].as_u64().unwrap() as usize;
+        match r["c"].as_str().unwrap() {
+            "Z" => out.extend(std::iter::repeat(0u8).take(n)),
+            "D" => out.extend(std::iter::repeat(0xA5u8).take(n)),
+            "W" => out.extend(std::iter::repeat(b'x').take(n)),
+            "G" => out.extend_from_slice(&wire::DRAFT[..n]),
+            c @ ("H" | "X") => {
+                let mut h = vec![];
+                h.extend_from_slice(&type_of(r["k"].as_str().unwrap()).to_be_bytes());
+                h.extend_from_slice(&(r["dl"].as_u64().unwrap() as u16).to_be_bytes());
+                let _ = c;
+                out.extend_from_slice(&h[..n]);
+            }
+            c => panic!("unknown run class {c}"),
+        }
+    }
+}
+
+fn concretise(ver: u8, hc: &Value, body: &Value, total: usize) -> Vec<u8> {
+    let mut d = header_bytes(ver, hc);
+    if total < 48 {
+        d.truncate(total);
+        return d;
+    }
+    runs_bytes(body, &mut d);
+    assert_eq!(d.len(), total, "model length and concretised length differ");
+    d
+}
+
+fn class_of<T>(e: &ParsingError<T>) -> &'static str {
+    match e {
+        ParsingError::InvalidVersion(_) => "err:version",
+        ParsingError::IncorrectLength => "err:len",
+        ParsingError::MalformedNtsExtensionFields => "err:nts",
+        ParsingError::MalformedNonce => "err:nonce",
+        ParsingError::MalformedCookiePlaceholder => "err:placeholder",
+        ParsingError::DecryptError(_) => "err:decrypt",
+        ParsingError::V5(v5::V5Error::InvalidDraftIdentification) => "err:v5draft",
+        ParsingError::V5(v5::V5Error::MalformedTimescale) => "err:v5scale",
+        ParsingError::V5(v5::V5Error::MalformedMode) => "err:v5mode",
+        ParsingError::V5(v5::V5Error::InvalidFlags) => "err:v5flags",
+    }
+}
+
+enum Ctx {
+    NoKeys,
+    Cipher(Box<dyn Cipher>),
+    Keys(Arc<KeySet>),
+}
+
+impl Ctx {
+    fn decode<'a>(&self, d: &'a [u8]) -> Result<(NtpPacket<'a>, Option<DecodedServerCookie>), PacketParsingError<'a>> {
+        match self {
+            Ctx::NoKeys => NtpPacket::deserialize(d, &NoCipher),
+            Ctx::Cipher(c) => NtpPacket::deserialize(d, c.as_ref()),
+            Ctx::Keys(k) => NtpPacket::deserialize(d, k.as_ref()),
+        }
+    }
+    /// result class; a panic is data
+    fn class(&self, d: &[u8]) -> String {
+        match util::catch(|| match self.decode(d) {
+            Ok(_) => "ok".to_string(),
+            Err(e) => class_of(&e).to_string(),
+        }) {
+            Ok(c) => c,
+            Err(p) => format!("panic:{p}"),
+        }
+    }
+}
+
+fn encode(p: &NtpPacket<'_>, buf: &mut Vec<u8>) -> Result<Vec<u8>, String> {
+    let r = util::catch(|| {
+        let mut cursor = Cursor::new(buf.as_mut_slice());
+        p.serialize(&mut cursor, &NoCipher, None).map(|_| cursor.position() as usize)
+    });
+    match r {
+        Err(p) => Err(format!("encode_panic:{p}")),
+        Ok(Err(e)) => Err(format!("encode_err:{e}")),
+        Ok(Ok(n)) => Ok(buf[..n].to_vec()),
+    }
+}
+
+/// decode -> encode -> decode -> encode; returns (verdict, first re-encoding)
+fn chain(d: &[u8], buf: &mut Vec<u8>) -> (String, Option<Vec<u8>>) {
+    let p = match util::catch(|| NtpPacket::deserialize(d, &NoCipher).ok().map(|x| x.0)) {
+        Ok(Some(p)) => p,
+        _ => return ("n/a".into(), None),
+    };
+    let d1 = match encode(&p, buf) {
+        Ok(x) => x,
+        Err(e) => return (e, None),
+    };
+    let r = util::catch(|| {
+        let p1 = match NtpPacket::deserialize(&d1, &NoCipher) {
+            Ok((p1, _)) => p1,
+            Err(e) => return format!("redecode:{}", class_of(&e)),
+        };
+        let d2 = match encode(&p1, buf) {
+            Ok(x) => x,
+            Err(e) => return format!("unstable:{e}"),
+        };
+        if d2 != d1 {
+            return "unstable:bytes".into();
+        }
+        match NtpPacket::deserialize(&d2, &NoCipher) {
+            Ok((p2, _)) if p2 == p1 => "ok".into(),
+            _ => "unstable:packet".into(),
+        }
+    });
+    match r {
+        Ok(v) => (v, Some(d1)),
+        Err(p) => (format!("panic:{p}"), Some(d1)),
+    }
+}
+
+fn hex(b: &[u8]) -> String {
+    b.iter().map(|x| format!("{x:02x}")).collect()
+}
+
+fn contexts(names: &Value, rng: &mut Rng) -> Vec<(String, Ctx)> {
+    names.as_array().unwrap().iter().map(|n| {
+        let n = n.as_str().unwrap();
+        let c = match n {
+            "none" => Ctx::NoKeys,
+            "cipher" => Ctx::Cipher(Box::new(AesSivCmac256::try_from(&rng.bytes(32)[..]).unwrap())),
+            "keyset" => Ctx::Keys(KeySetProvider::new(1).get()),
+            x => panic!("unknown context {x}"),
+        };
+        (n.to_string(), c)
+    }).collect()
+}
+
+fn cases(job: &Value) {
+    let input = util::read_ndjson(job["input"].as_str().unwrap());
+    let mut out = util::NdjsonOut::create(job["output"].as_str().unwrap());
+    let mut rng = Rng::new(job["seed"].as_u64().unwrap_or(0) ^ 0x7061);
+    let ctxs = contexts(&job["contexts"], &mut rng);
+    let do_chain = job["chain"].as_bool().unwrap_or(false);
+    let mutations = job["mutations"].as_u64().unwrap_or(0);
+    let mut buf = vec![0u8; 140_000];
+    for c in input {
+        let ver = c["ver"].as_u64().unwrap() as u8;
+        let d = concretise(ver, &c["hc"], &c["body"], c["total"].as_u64().unwrap() as usize);
+        let mut obs = serde_json::Map::new();
+        for (n, cx) in &ctxs {
+            obs.insert(n.clone(), json!(cx.class(&d)));
+        }
+        let mut res = json!({"id": c["id"], "obs": obs, "len": d.len()});
+        if do_chain {
+            let (verdict, d1) = chain(&d, &mut buf);
+            res["chain"] = json!(verdict);
+            // the model's re-encoding, concretised the same way
+            if let Some(d1) = d1 {
+                if c["enc"] == json!("ok") {
+                    let mut hc1 = c["hc"].clone();
+                    hc1["leap"] = c["leap1"].clone();
+                    let mut m = header_bytes(ver, &hc1);
+                    runs_bytes(&c["d1"], &mut m);
+                    res["d1_equal"] = json!(m == d1);
+                    if m != d1 {
+                        res["d1_real"] = json!(hex(&d1));
+                        res["d1_model"] = json!(hex(&m));
+                    }
+                }
+            }
+        }
+        // seeded mutations: totality only
+        let mut panics = vec![];
+        for _ in 0..mutations {
+            let mut x = d.clone();
+            match rng.below(5) {
+                0 if !x.is_empty() => {
+                    let i = rng.below(x.len() as u64) as usize;
+                    x[i] ^= 1 << rng.below(8);
+                }
+                1 if !x.is_empty() => {
+                    let i = rng.below(x.len() as u64) as usize;
+                    x[i] = rng.next() as u8;
+                }
+                2 if x.len() > 48 => {
+                    // a length word
+                    let i = 48 + 4 * rng.below(((x.len() - 48) / 4).max(1) as u64) as usize;
+                    if i + 4 <= x.len() {
+                        let v = *rng.pick(&[0u16, 1, 3, 4, 5, 8, 16, 24, 28, 0xFFFF, (x.len() - i) as u16, (x.len() - i + 1) as u16]);
+                        x[i + 2..i + 4].copy_from_slice(&v.to_be_bytes());
+                    }
+                }
+                3 => {
+                    let n = rng.below(x.len() as u64 + 1) as usize;
+                    x.truncate(n);
+                }
+                _ => {
+                    let n = rng.below(40) as usize;
+                    x.extend(rng.bytes(n));
+                }
+            }
+            for (n, cx) in &ctxs {
+                let r = cx.class(&x);
+                if r.starts_with("panic") {
+                    panics.push(json!({"ctx": n, "input": hex(&x), "panic": r}));
+                }
+            }
+        }
+        res["mutations"] = json!(mutations);
+        if !panics.is_empty() {
+            res["mutation_panics"] = json!(panics);
+        }
+        out.put(&res);
+    }
+    out.finish();
+}
+
+// ------------------------------------------------------------------------------------------------------------
+// sealed datagrams
+// ------------------------------------------------------------------------------------------------------------
+fn cipher_of(alg: u64, key: &[u8]) -> Box<dyn Cipher> {
+    if alg == 256 {
+        Box::new(AesSivCmac256::try_from(key).unwrap())
+    } else {
+        Box::new(AesSivCmac512::try_from(key.iter()).unwrap())
+    }
+}
+
+struct View {
+    auth: Vec<ExtensionField<'static>>,
+    enc: Vec<ExtensionField<'static>>,
+    cookie: Option<(Vec<u8>, Vec<u8>)>,
+}
+
+fn view(cx: &Ctx, d: &[u8]) -> Result<Option<View>, String> {
+    util::catch(|| {
+        let (p, cookie) = match cx.decode(d) {
+            Ok((p, c)) => (p, c),
+            Err(ParsingError::DecryptError(p)) => (p, None),
+            Err(_) => return None,
+        };
+        let p = p.into_owned();
+        Some(View {
+            auth: p.efdata.authenticated.clone(),
+            enc: p.efdata.encrypted.clone(),
+            cookie: cookie.map(|c| (c.s2c.key_bytes().to_vec(), c.c2s.key_bytes().to_vec())),
+        })
+    })
+}
+
+fn outcome(base: &View, v: &Option<View>) -> &'static str {
+    match v {
+        None => "none",
+        Some(v) if v.auth.is_empty() && v.enc.is_empty() && v.cookie.is_none() => "none",
+        Some(v) if v.auth == base.auth && v.enc == base.enc && v.cookie == base.cookie => "same",
+        Some(_) => "other",
+    }
+}
+
+fn sealed(job: &Value) {
+    let input = util::read_ndjson(job["input"].as_str().unwrap());
+    let mut out = util::NdjsonOut::create(job["output"].as_str().unwrap());
+    let seed = job["seed"].as_u64().unwrap_or(0);
+    let tamper = job["tamper"].as_bool().unwrap_or(true);
+    for (idx, c) in input.iter().enumerate() {
+        let mut rng = Rng::new(seed ^ ((idx as u64 + 1) << 20) ^ 0x5ea1);
+        let ver = c["ver"].as_u64().unwrap() as u8;
+        let alg = c["alg"].as_u64().unwrap();
+        let dir = c["dir"].as_str().unwrap();
+        let npre = c["npre"].as_u64().unwrap();
+        let trailing = c["trailing"].as_bool().unwrap();
+        let klen = if alg == 256 { 32 } else { 64 };
+        let (c2s, s2c) = (rng.bytes(klen), rng.bytes(klen));
+        let keyset = KeySetProvider::new(1).get();
+        let mk_cookie = || {
+            keyset.encode_cookie(&DecodedServerCookie {
+                algorithm: if alg == 256 { AeadAlgorithm::AeadAesSivCmac256 } else { AeadAlgorithm::AeadAesSivCmac512 },
+                s2c: cipher_of(alg, &s2c),
+                c2s: cipher_of(alg, &c2s),
+            })
+        };
+        let mut pre = vec![];
+        if ver == 5 {
+            pre.push(Ef::Draft(wire::DRAFT.to_vec()));
+        }
+        if npre >= 1 {
+            pre.push(Ef::Uid(rng.bytes(32)));
+        }
+        if npre >= 2 {
+            pre.push(Ef::Cookie(mk_cookie()));
+        }
+        if npre >= 3 {
+            pre.push(Ef::Unknown(0x1234, rng.bytes(8)));
+        }
+        let inner = if dir == "s2c" { vec![Ef::Cookie(mk_cookie())] } else { vec![] };
+        let unt = if trailing { vec![Ef::Unknown(0x4321, rng.bytes(24))] } else { vec![] };
+        let seal_key = cipher_of(alg, if dir == "c2s" { &c2s } else { &s2c });
+        let mut hdr = Hdr::new(ver, if dir == "c2s" { 3 } else { 4 });
+        hdr.xmit = [1, 2, 3, 4, 5, 6, 7, 8];
+        if ver == 5 {
+            hdr.word3 = [0, 0, 0, 1];
+        }
+        let (d, lay) = wire::datagram(&hdr, &pre, Some((seal_key.as_ref(), &inner)), &unt);
+        let a = lay.authenticator.unwrap();
+        let pre_span = (48usize, a[0]);
+        let regions: Vec<(&str, usize, usize)> = vec![
+            ("header", 0, 48), ("pre", pre_span.0, pre_span.1), ("ahdr", a[0], a[1]), ("lens", a[1], a[2]), ("nonce", a[2], a[3]),
+            ("npad", a[3], a[4]), ("ct", a[4], a[5]), ("cpad", a[5], a[6]), ("after", a[6], d.len()),
+        ];
+        let region_of = |off: usize| regions.iter().find(|r| r.1 <= off && off < r.2).map(|r| r.0).unwrap_or("?");
+        // length words: of every field before the authenticator, of the authenticator, and its two inner lengths
+        let mut len_bytes: Vec<usize> = vec![];
+        for (s, _) in &lay.auth_fields {
+            len_bytes.extend([s + 2, s + 3]);
+        }
+        len_bytes.extend([a[0] + 2, a[0] + 3, a[1], a[1] + 1, a[1] + 2, a[1] + 3]);
+        if trailing {
+            len_bytes.extend([a[6] + 2, a[6] + 3]);
+        }
+        // key contexts: the right one(s), none, a wrong one
+        let mut right: Vec<(&str, Ctx)> = vec![("cipher", Ctx::Cipher(cipher_of(alg, if dir == "c2s" { &c2s } else { &s2c })))];
+        if dir == "c2s" && npre >= 2 {
+            right.push(("keyset", Ctx::Keys(keyset.clone())));
+        }
+        let wrong = Ctx::Cipher(cipher_of(alg, &rng.bytes(klen)));
+        let mut res = json!({"id": idx, "case": c, "len": d.len(),
+            "regions": regions.iter().map(|r| json!([r.0, r.1, r.2])).collect::<Vec<_>>(),
+            "class_none": Ctx::NoKeys.class(&d), "class_wrong": wrong.class(&d),
+            "class_right": right.iter().map(|(n, cx)| json!([n, cx.class(&d)])).collect::<Vec<_>>()});
+        let mut stats: std::collections::BTreeMap<String, [u64; 3]> = Default::default();
+        let mut bad = vec![];
+        let mut baseline = "ok".to_string();
+        let mut decodes = 0u64;
+        for (cname, cx) in &right {
+            let base = match view(cx, &d) {
+                Ok(Some(v)) => v,
+                _ => {
+                    baseline = format!("{cname}: the unmodified datagram does not decode");
+                    continue;
+                }
+            };
+            let want_cookie = *cname == "keyset";
+            if base.auth.len() != pre.len() || base.enc.len() != inner.len() || base.cookie.is_some() != want_cookie {
+                baseline = format!("{cname}: unexpected baseline auth={} enc={} cookie={}", base.auth.len(), base.enc.len(), base.cookie.is_some());
+                continue;
+            }
+            if !tamper {
+                continue;
+            }
+            let mut try_one = |x: &[u8], off: usize, what: String, stats: &mut std::collections::BTreeMap<String, [u64; 3]>, bad: &mut Vec<Value>| {
+                let r = region_of(off);
+                let (o, panic) = match view(cx, x) {
+                    Ok(v) => (outcome(&base, &v), None),
+                    Err(p) => ("panic", Some(p)),
+                };
+                let e = stats.entry(r.to_string()).or_insert([0; 3]);
+                match o {
+                    "none" => e[0] += 1,
+                    "same" => e[1] += 1,
+                    _ => e[2] += 1,
+                }
+                if (o == "other" || o == "panic" || (o == "same" && matches!(r, "header" | "pre" | "nonce" | "ct"))) && bad.len() < 8 {
+                    bad.push(json!({"ctx": cname, "offset": off, "region": r, "change": what, "observed": o, "panic": panic}));
+                }
+            };
+            let mut x = d.clone();
+            for off in 0..d.len() {
+                for bit in 0..8 {
+                    x[off] ^= 1 << bit;
+                    try_one(&x, off, format!("bit{bit}"), &mut stats, &mut bad);
+                    x[off] ^= 1 << bit;
+                    decodes += 1;
+                }
+            }
+            for &off in &len_bytes {
+                for v in 0..=255u8 {
+                    if v != d[off] {
+                        x[off] = v;
+                        try_one(&x, off, format!("byte={v}"), &mut stats, &mut bad);
+                        decodes += 1;
+                    }
+                }
+                x[off] = d[off];
+            }
+        }
+        res["baseline"] = json!(baseline);
+        res["decodes"] = json!(decodes);
+        res["stats"] = json!(stats.iter().map(|(k, v)| (k.clone(), json!({"none": v[0], "same": v[1], "other": v[2]}))).collect::<serde_json::Map<_, _>>());
+        res["bad"] = json!(bad);
+        out.put(&res);
+    }
+    out.finish();
+}
+
+#[test]
+fn verif_packet() {
+    let job = util::job();
+    match job["mode"].as_str().unwrap() {
+        "cases" => cases(&job),
+        "sealed" => sealed(&job),
+        m => panic!("unknown mode {m}"),
+    }
+}
